@@ -1,6 +1,6 @@
 SPECIFICATION Spec
 CONSTANTS
-  BaseIds = {1, 2, 3, 5, 7, 12}
+  BaseIds = {2, 3, 5, 7}
   Toks = {"-q", "--quiet", "-v", "-vv", "-vvv", "--ansi", "--no-ansi", "-n", "--no-interaction", "-h", "--help", "-V", "--version"}
   MaxSw = 2
   LitToks = {"-q", "-h"}
